@@ -54,6 +54,12 @@ CHECKS["C06"] = dict(
     text="~1M executions per quick run: for each of u8..u128, i8..i128, u256, felt252 a generated crate exposes the operator forms (+ - * / %, unary -) and a batch of overflowing/wrapping/checked/saturating variants, comparisons, bitwise ops, sqrt, wide_mul, div_rem, felt252_div and try_into to every other type; results and panic data are compared with the mathematical model. The 8-bit slice is exhaustive; wider types are explored on boundary sets (2^k, 2^k+-1, MIN/MAX+-d, perfect squares +-1) and random operands.",
     note="Trusted: the BigInt model in props/c06.rs (which panic / None / overflow flag is due when). Level is exploration overall; the evidence names the exhaustive slice separately. BoundedInt helper impls and the u512 family are not covered yet.")
 
+CHECKS["C07"] = dict(
+    level="exploration", design="DESIGN.md 3/C07",
+    technique="differential property-based testing of three evaluators: generated const-evaluable expression trees evaluated as a const item (semantic evaluator), at run time with opaque arguments (reference), and as literals in a function body with constant folding on and off (lowering folder)",
+    text="2,560 (quick) / 32,000 (thorough) expression trees over the documented const-evaluable constructs, a third of them operator templates on (boundary, boundary) operand pairs of one integer type; const rejected iff run time panics, equal values otherwise, folded result identical to run time incl. panic data.",
+    note="Trusted: run-time behaviour under the default configuration as the reference; evaluation failures recognised by diagnostic codes E2128/E2130/E2131/E2008; E2127 (unsupported constant) means the generator left the subset and is counted, not judged.")
+
 PENDING_REASON = "check not built yet in this session (planned in DESIGN.md section 3; the property itself is amenable to the technique)"
 
 def main():
